@@ -71,6 +71,14 @@ impl<'a> Session<'a> {
         let st = self.gens[to].as_ref().map(|g| state_json(&g.export())).unwrap_or("{}".into());
         self.out.emit(Ev::new("gen_clone").num("g", from as i64).num("g2", to as i64).raw("st", &st).meas(a, &p));
     }
+    /// `to.clone_from(&from)`: the destination already exists (whatever it has seen so far)
+    pub fn clone_from_gen(&mut self, from: usize, to: usize) {
+        let mut dst = self.gens[to].take().expect("destination generator exists");
+        let o = dst.clone_from_obj(self.g(from));
+        let st = state_json(&dst.export());
+        self.gens[to] = Some(dst);
+        self.out.emit(Ev::new("gen_clone").num("g", from as i64).num("g2", to as i64).boolean("into", true).raw("st", &st).meas(o.a, &o.p));
+    }
     /// finalize under all 32 option sets, plus finalize() (default options)
     pub fn fin(&mut self, i: usize) {
         let mut fan = String::from("[");
@@ -242,7 +250,33 @@ pub fn run_c01(out: &mut Out, rng: &mut Rng, thorough: bool, only: Option<&str>)
             s.inject(1, &st);
             s.fin(1);
         }
+        // every boundary of the length table: states whose fed length is the last length of a code and the
+        // first of the next (the table is the specification's pinned copy, not the library's)
+        if thorough || v.name() == "Normal" {
+            for (i, top) in pinned_tops().into_iter().enumerate() {
+                if top < 8 {
+                    continue;
+                }
+                let mut st = craft_state(*v, rng, 1 + i % 3);
+                for fed in [top, top + 1] {
+                    st.len = (fed - 4) as u32;
+                    st.tail_len = 4;
+                    s.inject(1, &st);
+                    s.fin(1);
+                }
+            }
+        }
     }
+}
+
+/// The 170 top values of the length table, read from the specification's pinned decimal copy.
+pub fn pinned_tops() -> Vec<u64> {
+    let text = include_str!("../../spec/TablesDecimal.tla");
+    let start = text.find("TopDecimal == <<").expect("TopDecimal") + "TopDecimal == <<".len();
+    let end = start + text[start..].find(">>").expect("end of table");
+    let tops: Vec<u64> = text[start..end].split(',').map(|t| t.trim().parse().expect("number")).collect();
+    assert_eq!(tops.len(), 170);
+    tops
 }
 
 /// A well-formed concrete state with bucket counts in a chosen magnitude class.
@@ -425,6 +459,10 @@ pub fn run_c03(out: &mut Out, rng: &mut Rng, thorough: bool, only: Option<&str>)
                         s.clone_gen(g, to);
                         live.push(to);
                     }
+                    2 => {
+                        let to = (g + 1 + rng.below(2) as usize) % 3;
+                        s.clone_from_gen(g, to);
+                    }
                     _ => {
                         let mut n = *rng.pick(PIECES);
                         if h % 7 == 3 {
@@ -441,6 +479,20 @@ pub fn run_c03(out: &mut Out, rng: &mut Rng, thorough: bool, only: Option<&str>)
             }
             for &g in &live {
                 s.fin(g);
+            }
+        }
+        // clone_from into an existing generator that has seen 0..5 bytes (and the other way round), continued
+        for dst_fed in 0..=5usize {
+            for (src_n, dst_n) in [(20usize, dst_fed), (dst_fed, 20usize)] {
+                s.new_gen(0);
+                s.update(0, &rng.bytes(src_n));
+                s.new_gen(1);
+                s.update(1, &rng.bytes(dst_n));
+                s.clone_from_gen(0, 1);
+                s.update(1, &rng.bytes(9));
+                s.fin(1);
+                s.update(0, &rng.bytes(2));
+                s.fin(0);
             }
         }
         // one long-lived generator: hundreds of operations on the same object (tiny pieces, finalize fans,
